@@ -177,6 +177,7 @@ type Exec struct {
 	needCard      bool
 	axMu          sync.Mutex
 	knownPath     *Term
+	noGuardShortcut bool
 	knownHyps     map[string]*Term // quantified conjuncts asserted as hypotheses of the obligation being split -> guard
 	closureFn     map[ssa.Value]*ssa.Function
 	iterName      map[ssa.Value]string
